@@ -101,7 +101,7 @@ type Sched struct {
 	done      chan struct{}
 	Deadlock  bool
 	Races     []Race
-	vars      map[int]*varState
+	vars      map[any]*varState
 	Switches  int // context switches taken strictly inside a call (preemptions)
 	Frozen    bool // no more preemptions (after a violation was seen, or the cap was hit)
 	Stalled   bool
@@ -126,7 +126,7 @@ type readRec struct {
 
 func NewSched(rng *Rand) *Sched {
 	return &Sched{Rng: rng, PreemptAt: map[PKey]bool{}, PreemptGlobal: map[int]bool{}, MaxYields: 5_000_000, MaxTasks: 192,
-		vars: map[int]*varState{}, mutexes: map[any]*simMutex{}, onces: map[*sync.Once]*simOnce{}, wgs: map[*sync.WaitGroup]*simWG{}}
+		vars: map[any]*varState{}, mutexes: map[any]*simMutex{}, onces: map[*sync.Once]*simOnce{}, wgs: map[*sync.WaitGroup]*simWG{}}
 }
 
 // NewReplaySched builds a scheduler that follows an explicit decision list.
@@ -477,12 +477,34 @@ func CurTask() *Task {
 
 func hb(clock uint32, task int, vc []uint32) bool { return task < len(vc) && clock <= vc[task] }
 
-func (s *Sched) access(site, v, kind int) {
+func (s *Sched) access(site, v, kind int) { s.accessKey(site, v, v, kind) }
+
+// AccessL marks a statement that touches a local variable shared with goroutines the
+// library started (captured by a `go func(){...}` closure); p is its address.
+func AccessL(site, v, kind int, p any) {
+	if !Active {
+		return
+	}
+	s := sched
+	if s == nil || s.cur == nil {
+		return
+	}
+	s.yield(site, 1)
+	if kind&2 != 0 {
+		s.cur.acquire(s.globalSync)
+		s.accessKey(site, v, p, kind&1)
+		s.cur.release(&s.globalSync)
+		return
+	}
+	s.accessKey(site, v, p, kind)
+}
+
+func (s *Sched) accessKey(site, v int, key any, kind int) {
 	t := s.cur
-	st := s.vars[v]
+	st := s.vars[key]
 	if st == nil {
 		st = &varState{reads: map[int]readRec{}}
-		s.vars[v] = st
+		s.vars[key] = st
 	}
 	my := t.vc[t.ID]
 	if st.hasW && st.wTask != t.ID && !hb(st.wClock, st.wTask, t.vc) {
